@@ -10,6 +10,13 @@ func CacheUpdateFilterExcludeOwner(owner string) func(u *cache.Update) bool {
 	}
 }
 
+// CacheUpdateFilterExcludeOwners leaves out the updates of every owner the given predicate holds for
+func CacheUpdateFilterExcludeOwners(isExcluded func(owner string) bool) func(u *cache.Update) bool {
+	return func(u *cache.Update) bool {
+		return !isExcluded(u.Owner())
+	}
+}
+
 // ApplyCacheUpdateFilters takes a bunch of CacheUpdateFilters applies them in an AND fashion
 // and returns the result.
 func ApplyCacheUpdateFilters(u *cache.Update, fs []CacheUpdateFilter) bool {
